@@ -29,7 +29,7 @@ import _c18_stub as S  # noqa: E402
 SRC = ["src/pynguin/testcase/export.py", "src/pynguin/assertion/assertion_to_ast.py", "src/pynguin/generator.py",
        "src/pynguin/assertion/assertiontraceobserver.py", "src/pynguin/testcase/testcase.py"]
 SUT_DIR = vlib.VERIF / "corpus" / "C18" / "sut"
-SUT_MODULES = ["numeric", "strings", "containers", "state", "enums", "floats", "rnd", "errors", "shapes.area", "foreign"]
+SUT_MODULES = ["numeric", "strings", "containers", "state", "enums", "floats", "rnd", "errors", "shapes.area", "foreign", "exits"]
 MODES = ["MUTATION_ANALYSIS", "SIMPLE", "NONE", "CHECKED_MINIMIZING"]
 GEN = str(Path(__file__).resolve().parent / "_c18_gen.py")
 
@@ -188,6 +188,7 @@ def run(ctx: vlib.Ctx):
     for _ in range(n_rand):
         specs.append(S.gen_suite(rng))
     recs = []
+    pre_sigs: set[str] = set()
     for i, sp in enumerate(specs):
         rec = eval_stub(sp, str(scratch / f"stub{i}"))
         recs.append(rec)
@@ -206,6 +207,17 @@ def run(ctx: vlib.Ctx):
                 ctx.count("stub:stmt:" + ("raises-" + ("expected" if s["expected"] else "unexpected") if s["exc"] else "plain"))
                 if s["exc"]:
                     ctx.count("stub:exc:" + ("builtin" if s["exc"][1] is None else "imported"))
+                    if s["exc"][2]:
+                        ctx.count("stub:exc:base-exception-not-exception:" + s["exc"][0])
+                seen_by_writer = s.get("exc_writer")
+                if (s["exc"][0] if s["exc"] else None) != seen_by_writer:
+                    kind = "base-exception" if s["exc"] and s["exc"][2] else "exception"
+                    sig = f"reexecution:exception-missed:{kind}"
+                    if sig not in pre_sigs:
+                        pre_sigs.add(sig)
+                        ctx.fail(sig, f"statement `{s['code'].strip()}` raises {s['exc'][0] if s['exc'] else None} when executed, but the "
+                                      f"writer's re-execution (_per_statement_exceptions) recorded {seen_by_writer}",
+                                 {"kind": "stub", "spec": sp, "written_file": rec["src"]})
                 for a in s["asserts"]:
                     ctx.count("stub:assert:" + a[0])
     ctx.log(f"stub suites written: {len(recs)}")
